@@ -66,8 +66,14 @@ func try(where string, f func()) (msg string) {
 
 // case: src(hex).  Every node's Pos/End, Fprint under all 256 configs, Expand of every word under every mode.
 func downH(line string) string {
-	src := unhex(strings.Split(line, "\t")[0])
+	f0 := strings.Split(line, "\t")
+	src := unhex(f0[0])
 	cmds, comments, err := parseAll(src)
+	if len(f0) > 1 && f0[1] != "" {
+		// with an alias table (positions stand still inside alias text: the printer sees degenerate layouts)
+		comments = nil
+		cmds, err = parseAllEnv(src, f0[1])
+	}
 	if err != nil {
 		return "skip:" + fmtErr(err)
 	}
